@@ -76,6 +76,8 @@ func allScenarios(thorough bool) []Scenario {
 	out = append(out, Scenario{Proto: "redis", Backend: "slow-accept", When: "connect-pending-at-stop"})
 	out = append(out, Scenario{Proto: "redis", Backend: "silent", When: "backend-queue-full-at-stop"})
 	out = append(out, Scenario{Proto: "redis", Backend: "full-target-queue", When: "refresh-blocked-at-stop"})
+	// the health monitor of the TCP processor (hc.go)
+	out = append(out, hcScenarios()...)
 	return out
 }
 
@@ -216,6 +218,9 @@ func runScenario(job *Job) (res Result) {
 	s := job.Scenario
 	if isUpstreamScenario(s) {
 		return runUpstreamScenario(job)
+	}
+	if isHcScenario(s) {
+		return runHcScenario(job)
 	}
 	res = Result{ID: job.ID, Kind: job.Kind, Name: job.Name, Attempt: job.Attempt, DeadlineMs: job.DeadlineMs, DivergeAt: -1, Exact: true}
 	defer func() { res.WallMs = ms(time.Since(t0)) }()
